@@ -9,6 +9,7 @@ Section Proofs.
 Variables V Q A GV Val : Type.
 Variable dV : V.
 Variable dQ : Q.
+Variable renorm : Q -> Q.
 Variable key_of : A -> option nat.
 Variable dim_ok : A -> bool.
 Variable exc_ok : A -> bool.
@@ -20,8 +21,8 @@ Local Notation objT := (obj V Q A).
 Local Notation storeT := (list (obj V Q A)).
 Local Notation updT := (upd V Q A).
 Local Notation tile_posT := (tile_pos V Q A dV).
-Local Notation tile_oriT := (tile_ori V Q A dQ).
-Local Notation tile_objT := (tile_obj V Q A dV dQ).
+Local Notation tile_oriT := (tile_ori V Q A dQ renorm).
+Local Notation tile_objT := (tile_obj V Q A dV dQ renorm).
 Local Notation trim_posT := (trim_pos V Q A).
 Local Notation trim_oriT := (trim_ori V Q A).
 Local Notation trim_objT := (trim_obj V Q A).
@@ -30,12 +31,14 @@ Local Notation loop_crashT := (loop_crash V Q A).
 Local Notation trim_allT := (trim_all V Q A).
 Local Notation restore_allT := (restore_all V Q A).
 Local Notation mstateT := (mstate V Q A GV).
-Local Notation execT := (exec V Q A GV Val dV dQ key_of dim_ok exc_ok pix_shape post F).
+Local Notation execT := (exec V Q A GV Val dV dQ renorm key_of dim_ok exc_ok pix_shape post F).
 Local Notation exec_roT := (exec_ro V Q A GV Val key_of dim_ok exc_ok pix_shape post F).
-Local Notation run_bodyT := (run_body V Q A GV Val dV dQ key_of dim_ok exc_ok pix_shape post F).
-Local Notation level2T := (getBH_level2 V Q A GV Val dV dQ key_of dim_ok exc_ok pix_shape post F).
+Local Notation run_bodyT := (run_body V Q A GV Val dV dQ renorm key_of dim_ok exc_ok pix_shape post F).
+Local Notation level2T := (getBH_level2 V Q A GV Val dV dQ renorm key_of dim_ok exc_ok pix_shape post F).
 Local Notation wf_objT := (wf_obj V Q A).
 Local Notation wf_storeT := (wf_store V Q A).
+Local Notation fix_storeT := (fix_store V Q A renorm).
+Local Notation fixq := (Forall (fun q => renorm q = q)).
 
 (* ---- lists *)
 Lemma firstn_len_le {X} (n : nat) (l l0 : list X) :
@@ -80,33 +83,43 @@ Proof.
   revert i j. induction st as [|o r IH]; intros [|i] [|j] H; simpl; auto; try congruence.
 Qed.
 
-(* ---- "o is o0 with possibly longer paths" *)
+(* ---- "o is o0 with possibly longer paths"; the orientation prefix is only guaranteed when the
+   original quaternions are fixed points of the re-normalisation *)
 Definition ext (o0 o : objT) : Prop :=
   firstn (length (o_pos V Q A o0)) (o_pos V Q A o) = o_pos V Q A o0 /\
-  firstn (length (o_pos V Q A o0)) (o_ori V Q A o) = o_ori V Q A o0 /\
+  (fixq (o_ori V Q A o0) -> firstn (length (o_pos V Q A o0)) (o_ori V Q A o) = o_ori V Q A o0) /\
   o_attr V Q A o = o_attr V Q A o0 /\
-  length (o_ori V Q A o0) = length (o_pos V Q A o0).
+  length (o_ori V Q A o0) = length (o_pos V Q A o0) /\
+  length (o_pos V Q A o0) <= length (o_ori V Q A o).
 
 Lemma ext_refl o : wf_objT o -> ext o o.
 Proof.
   intros H. unfold wf_obj in H. unfold ext. repeat split; auto.
   - apply firstn_all.
-  - rewrite <- H. apply firstn_all.
+  - intros _. rewrite <- H. apply firstn_all.
+  - rewrite H. apply le_n.
 Qed.
 
 Lemma ext_wf o0 o : ext o0 o -> wf_objT o0.
-Proof. intros (_ & _ & _ & H). exact H. Qed.
+Proof. intros (_ & _ & _ & H & _). exact H. Qed.
+
+Lemma map_fix (l : list Q) : fixq l -> map renorm l = l.
+Proof. induction 1 as [|q l Hq _ IH]; simpl; [reflexivity|]. rewrite Hq, IH. reflexivity. Qed.
+
+Lemma firstn_map' {X Y} (f : X -> Y) n (l : list X) : firstn n (map f l) = map f (firstn n l).
+Proof. revert l. induction n as [|n IH]; intros [|x l]; simpl; auto. rewrite IH. reflexivity. Qed.
 
 Lemma ext_tile_pos k o0 o : ext o0 o -> ext o0 (tile_posT k o).
 Proof.
-  intros (H1 & H2 & H3 & H4). unfold ext, tile_pos; simpl. repeat split; auto.
+  intros (H1 & H2 & H3 & H4 & H5). unfold ext, tile_pos; simpl. repeat split; auto.
   rewrite firstn_app_ge; auto. eapply firstn_len_le; eauto.
 Qed.
 
 Lemma ext_tile_ori k o0 o : ext o0 o -> ext o0 (tile_oriT k o).
 Proof.
-  intros (H1 & H2 & H3 & H4). unfold ext, tile_ori; simpl. repeat split; auto.
-  rewrite firstn_app_ge; auto. eapply firstn_len_le; eauto.
+  intros (H1 & H2 & H3 & H4 & H5). unfold ext, tile_ori; simpl. repeat split; auto.
+  - intros Hf. rewrite firstn_map', firstn_app_ge by exact H5. rewrite (H2 Hf). apply map_fix, Hf.
+  - rewrite map_length, app_length. lia.
 Qed.
 
 Lemma ext_tile_obj k o0 o : ext o0 o -> ext o0 (tile_objT k o).
@@ -114,23 +127,30 @@ Proof. intros H. unfold tile_obj. apply ext_tile_ori, ext_tile_pos, H. Qed.
 
 Lemma ext_trim_pos o0 o : ext o0 o -> ext o0 (trim_posT (length (o_pos V Q A o0)) o).
 Proof.
-  intros (H1 & H2 & H3 & H4). unfold ext, trim_pos; simpl. repeat split; auto.
+  intros (H1 & H2 & H3 & H4 & H5). unfold ext, trim_pos; simpl. repeat split; auto.
   rewrite firstn_idem. exact H1.
 Qed.
 
 Lemma ext_trim_ori o0 o : ext o0 o -> ext o0 (trim_oriT (length (o_pos V Q A o0)) o).
 Proof.
-  intros (H1 & H2 & H3 & H4). unfold ext, trim_ori; simpl. repeat split; auto.
-  rewrite firstn_idem. exact H2.
+  intros (H1 & H2 & H3 & H4 & H5). unfold ext, trim_ori; simpl. repeat split; auto.
+  - intros Hf. rewrite firstn_idem. exact (H2 Hf).
+  - rewrite firstn_length. lia.
 Qed.
 
 Lemma ext_trim_obj o0 o : ext o0 o -> ext o0 (trim_objT (length (o_pos V Q A o0)) o).
 Proof. intros H. unfold trim_obj. apply ext_trim_ori, ext_trim_pos, H. Qed.
 
-Lemma ext_trim_eq o0 o : ext o0 o -> trim_objT (length (o_pos V Q A o0)) o = o0.
+Lemma ext_trim_eq o0 o : ext o0 o -> fixq (o_ori V Q A o0) -> trim_objT (length (o_pos V Q A o0)) o = o0.
 Proof.
-  intros (H1 & H2 & H3 & H4). unfold trim_obj, trim_ori, trim_pos; simpl.
-  rewrite H1, H2, H3. destruct o0; reflexivity.
+  intros (H1 & H2 & H3 & H4 & H5) Hf. unfold trim_obj, trim_ori, trim_pos; simpl.
+  rewrite H1, (H2 Hf), H3. destruct o0; reflexivity.
+Qed.
+
+Lemma trim_obj_self o0 : wf_objT o0 -> trim_objT (length (o_pos V Q A o0)) o0 = o0.
+Proof.
+  intros H. unfold wf_obj in H. unfold trim_obj, trim_ori, trim_pos; simpl.
+  rewrite firstn_all. rewrite <- H. rewrite firstn_all. destruct o0; reflexivity.
 Qed.
 
 Lemma trim_pos_self o0 : wf_objT o0 -> trim_posT (length (o_pos V Q A o0)) o0 = o0.
@@ -223,8 +243,10 @@ Proof.
   - destruct (Hd i m0 En) as [Hx | Hx]; [left; auto|]. right. intros o0 Ho Hw. apply (Hx o0 Ho Hw).
 Qed.
 
-Lemma trim_all_restores st0 l : forall st, good st0 st (map fst l) -> lens_ok st0 l -> trim_allT l st = st0.
+Lemma trim_all_restores st0 l : fix_storeT st0 ->
+  forall st, good st0 st (map fst l) -> lens_ok st0 l -> trim_allT l st = st0.
 Proof.
+  intros Hfix. unfold fix_store in Hfix. rewrite Forall_forall in Hfix.
   induction l as [|[i m0] l IH]; intros st (Hl & Hg) Hk.
   - simpl. apply nth_error_ext_eq; auto. intros j o0 Ho.
     destruct (Hg j o0 Ho) as (o & Hn & _ & [-> | []]). exact Hn.
@@ -233,7 +255,8 @@ Proof.
       destruct (Hg j o0 Ho) as (o & Hn & He & Hd).
       destruct (Nat.eq_dec i j) as [->|Hne].
       * exists o0. rewrite nth_error_upd_same, Hn. simpl.
-        rewrite (Hk j m0 o0 (or_introl eq_refl) Ho). rewrite (ext_trim_eq o0 o He).
+        rewrite (Hk j m0 o0 (or_introl eq_refl) Ho).
+        rewrite (ext_trim_eq o0 o He (Hfix o0 (nth_error_In _ _ Ho))).
         split; [reflexivity|]. split; [apply ext_refl; eapply ext_wf; eauto | left; reflexivity].
       * exists o. rewrite nth_error_upd_other by exact Hne. split; [exact Hn|]. split; [exact He|].
         destruct Hd as [Hd | [Hd | Hd]]; [left; auto | simpl in Hd; congruence | right; auto].
@@ -252,7 +275,7 @@ Proof.
       destruct (Nat.eq_dec i j) as [->|Hne].
       * exists o0. rewrite nth_error_upd_same, Hn. simpl.
         rewrite (Hk j pq o0 (or_introl eq_refl) Ho). unfold set_paths; simpl.
-        destruct He as (_ & _ & Ha & Hw). rewrite Ha.
+        destruct He as (_ & _ & Ha & Hw & _). rewrite Ha.
         split; [destruct o0; reflexivity|]. split; [apply ext_refl; exact Hw | left; reflexivity].
       * exists o. rewrite nth_error_upd_other by exact Hne. split; [exact Hn|]. split; [exact He|].
         destruct Hd as [Hd | [Hd | Hd]]; [left; auto | simpl in Hd; congruence | right; auto].
@@ -413,14 +436,14 @@ Proof.
     { apply loop_full_good; auto.
       - intros j m0 o0 o Hin Ho He. rewrite (Hr j m0 o0 Hin Ho). apply ext_trim_obj, He.
       - intros j m0 Hin. right. intros o0 Ho Hw. rewrite (Hr j m0 o0 Hin Ho).
-        apply ext_trim_eq, ext_refl, Hw. }
+        apply trim_obj_self, Hw. }
     destruct (s_loop sch pc) as [lc|].
     + simpl. unfold InvF. rewrite Hcov. simpl. split; [|split; [exact Ht|exact Hs]].
       apply loop_crash_good; auto.
       * intros j m0 o0 o Hin Ho He. rewrite (Hr j m0 o0 Hin Ho). apply ext_trim_obj, He.
       * intros j m0 o0 o Hin Ho He. rewrite (Hr j m0 o0 Hin Ho). apply ext_trim_pos, He.
       * intros j m0 Hin. right. intros o0 Ho Hw. rewrite (Hr j m0 o0 Hin Ho). split.
-        -- apply ext_trim_eq, ext_refl, Hw.
+        -- apply trim_obj_self, Hw.
         -- apply trim_pos_self, Hw.
     + simpl. exists recorded, true. split; [exact Hp|].
       apply Inv_intro; rewrite ?Hcov; simpl.
@@ -458,12 +481,14 @@ Proof.
   - intros _. apply incl_nil_l.
 Qed.
 
-(* every exit of the wrapped function leaves the store as it found it *)
+(* every exit of the wrapped function leaves the store as it found it; a finally that keeps a slice of the
+   tiled (re-normalised) orientation needs the stored quaternions to be fixed points of the
+   re-normalisation, a finally that puts the original objects back needs nothing *)
 Theorem state_restored w p c sch cnt st :
-  wrapper_ok w p = true -> wf_storeT st ->
+  wrapper_ok w p = true -> wf_storeT st -> (w = WFinallyTrim -> fix_storeT st) ->
   r_store V Q A Val (level2T w p c sch cnt st) = st.
 Proof.
-  intros Hp Hw. unfold getBH_level2, wrapper_ok in *.
+  intros Hp Hw Hfix. unfold getBH_level2, wrapper_ok in *.
   pose proof (run_body_inv w st c sch p 0 _ false false Hp (init_inv w st cnt Hw)) as H.
   destruct (run_bodyT c sch 0 p _) as [m'|v m'|x m']; simpl;
     destruct H as (Hg & Hk & Hs); destruct w; simpl in *;
@@ -475,9 +500,9 @@ Qed.
 (* ... and therefore calling again (same arguments, same behaviour of the field functions) gives the
    identical outcome, value, trace and state *)
 Theorem second_call_identical w p c sch cnt st :
-  wrapper_ok w p = true -> wf_storeT st ->
+  wrapper_ok w p = true -> wf_storeT st -> (w = WFinallyTrim -> fix_storeT st) ->
   level2T w p c sch cnt (r_store V Q A Val (level2T w p c sch cnt st)) = level2T w p c sch cnt st.
-Proof. intros Hp Hw. rewrite state_restored by assumption. reflexivity. Qed.
+Proof. intros Hp Hw Hf. rewrite state_restored by assumption. reflexivity. Qed.
 
 (* the body alone, whatever the wrapper does afterwards: attributes are never written and the old
    paths stay prefixes of the new ones at every exit *)
